@@ -104,8 +104,9 @@ pub fn judge_range_api(ctx: &Ctx, l: &mut Local, p: &Params, site: Site, start: 
     l.nontrivial += 1;
     // the block form of the range API (this host's worker count; the schedule space is C15's subject):
     // the same map for thresholds that force and that avoid the parallel branch
-    if (0..=400).contains(&span) {
-        for thr in [0usize, 365] {
+    if (0..=400).contains(&span) && site.lat == 39.0 {
+        // thresholds: forced parallel, small ones (a last block shorter than the threshold exists), the CLI's
+        for thr in [0usize, 2, 7, 16, 365] {
             let (p2, loc, dr2) = (p.clone(), site.loc(), dr.clone());
             let (tx, rx) = std::sync::mpsc::channel();
             std::thread::spawn(move || {
